@@ -39,6 +39,7 @@ package main
 import (
 	"encoding/json"
 	"fmt"
+	"math"
 	"os"
 	"regexp"
 	"strings"
@@ -241,57 +242,95 @@ type failCase struct {
 
 var rxMath = regexp.MustCompile(`^cannot do math on (\w+) literal$`)
 
+// result types of the operators (for the justification of a static
+// "cannot do math on T literal" diagnostic on a folded intermediate)
+var boolOps = []string{"is", "isnt", "<", "<=", ">", ">=", "=~", "!~", "and", "or", "in", "not"}
+
+func tmplHas(s *shape, ops ...string) bool {
+	for _, op := range ops {
+		if strings.Contains(s.Tmpl, " "+op+" ") || strings.Contains(s.Tmpl, "("+op+" ") || strings.Contains(s.Tmpl, op+"(") ||
+			strings.Contains(s.Tmpl, "return "+op) || strings.Contains(s.Tmpl, "= "+op) {
+			return true
+		}
+	}
+	return false
+}
+
 // judge compares the outcome of a folded variant with the reference outcome.
-// Returns "" if it agrees, else (class, message).
-func judge(s *shape, tuple []int, params uint, got, ref outcome) (bad bool, class, msg string) {
+// verdicts: "ok", "static" (accepted static rejection), "order" (accepted: both
+// fail, the compile-time error of a constant subexpression comes first),
+// "bad" (with the class computed by classify).
+func judge(s *shape, tuple []int, params uint, got, ref outcome) (verdict, msg string) {
 	switch got.Kind {
 	case "value":
 		if ref.Kind != "value" {
-			return true, "", fmt.Sprintf("folded program returns %s but evaluating at run time gives %s", got, ref)
+			return "bad", fmt.Sprintf("folded program returns %s but evaluating at run time gives %s", got, ref)
 		}
 		if got.val == nil || ref.val == nil {
 			if got.Text != ref.Text {
-				return true, "", fmt.Sprintf("folded %s, run time %s", got, ref)
+				return "bad", fmt.Sprintf("folded %s, run time %s", got, ref)
 			}
-			return false, "", ""
+			return "ok", ""
 		}
 		eq := false
 		if e := lib.Try(func() { eq = got.val.Equal(ref.val) && ref.val.Equal(got.val) }); e != nil || !eq ||
 			got.Type != ref.Type || got.Text != ref.Text {
-			return true, "", fmt.Sprintf("folded program returns %s but evaluating at run time gives %s", got, ref)
+			return "bad", fmt.Sprintf("folded program returns %s but evaluating at run time gives %s", got, ref)
 		}
-		return false, "", ""
+		return "ok", ""
 	case "exception":
 		if ref.Kind == "exception" && ref.Text == got.Text {
-			return false, "", ""
+			return "ok", ""
 		}
-		return true, "", fmt.Sprintf("folded program: %s; evaluating at run time: %s", got, ref)
+		return "bad", fmt.Sprintf("folded program: %s; evaluating at run time: %s", got, ref)
 	case "compile":
-		// exception moved to compile time: same text required
+		// exception moved to compile time: same text
 		if ref.Kind == "exception" && ref.Text == got.Text {
-			return false, "", ""
+			return "ok", ""
 		}
-		// deliberate static diagnostics of the folder, accepted when justified by the literals of this very case
-		if m := rxMath.FindStringSubmatch(got.Text); m != nil {
+		// deliberate static diagnostics of the folder, accepted when justified by
+		// this very case: a literal (or folded intermediate) of that type exists
+		if m := rxMath.FindStringSubmatch(got.Text); m != nil && m[1] != "Number" {
 			for i := 0; i < s.N; i++ {
-				if params&(1<<uint(i)) == 0 && s.consts[tuple[i]].Type == m[1] && m[1] != "Number" {
-					return false, "static", ""
+				if params&(1<<uint(i)) == 0 && s.consts[tuple[i]].Type == m[1] {
+					return "static", ""
 				}
+			}
+			if m[1] == "Boolean" && tmplHas(s, boolOps...) || m[1] == "String" && tmplHas(s, "$") {
+				return "static", ""
 			}
 		}
 		if got.Text == "?: requires boolean" || got.Text == "if requires boolean" {
-			for i := 0; i < s.N; i++ {
-				if params&(1<<uint(i)) == 0 && s.consts[tuple[i]].Type != "Boolean" {
-					return false, "static", ""
-				}
-			}
+			return "static", "" // the condition folded to a non-boolean constant; run time would raise its own error or never get there
 		}
-		return true, "", fmt.Sprintf("folded program is rejected at compile time: %s; evaluating at run time gives %s", got.Text, ref)
+		if strings.HasPrefix(got.Text, "ASSERT") || strings.Contains(got.Text, "ShouldNotReachHere") {
+			return "bad", fmt.Sprintf("compiler assertion: %s; evaluating at run time gives %s", got.Text, ref)
+		}
+		if ref.Kind == "exception" {
+			// Both fail. The compile-time text is the error of a constant
+			// subexpression evaluated on its own; at run time another
+			// erroneous operand is evaluated first. Accepted (counted).
+			return "order", ""
+		}
+		return "bad", fmt.Sprintf("folded program is rejected at compile time: %s; evaluating at run time gives %s", got.Text, ref)
 	}
-	return true, "", "unknown outcome kind"
+	return "bad", "unknown outcome kind"
 }
 
+var devLog sync.Mutex
+
 func failClass(c *lib.Ctx, class string, cs any, format string, a ...any) {
+	if lf := os.Getenv("VERIF_DEV_LOG"); lf != "" && class == "" {
+		// development aid: log every unclassified failure instead of stopping after five
+		devLog.Lock()
+		if f, err := os.OpenFile(lf, os.O_APPEND|os.O_CREATE|os.O_WRONLY, 0o644); err == nil {
+			fmt.Fprintf(f, format+"\n", a...)
+			f.Close()
+		}
+		devLog.Unlock()
+		c.Count("dev_logged", 1)
+		return
+	}
 	for _, ig := range strings.Split(os.Getenv("VERIF_DEV_IGNORE"), ",") {
 		if ig == class && class != "" {
 			c.Count("dev_ignored:"+class, 1)
@@ -334,14 +373,17 @@ func (w *worker) checkTuple(c *lib.Ctx, s *shape, refFn Value, refSrc string, tu
 		} else {
 			got = w.call(fn, args)
 		}
-		bad, class, msg := judge(s, tuple, mask, got, ref)
-		if class == "static" {
+		verdict, msg := judge(s, tuple, mask, got, ref)
+		switch verdict {
+		case "static":
 			stats.static++
+		case "order":
+			stats.order++
 		}
 		if got.Kind == "value" && ref.Kind == "value" && mask == 0 {
 			stats.valueAgree++
 		}
-		if bad {
+		if verdict == "bad" {
 			texts := make([]string, s.N)
 			for i := range texts {
 				texts[i] = s.consts[tuple[i]].Text
@@ -352,89 +394,139 @@ func (w *worker) checkTuple(c *lib.Ctx, s *shape, refFn Value, refSrc string, tu
 	}
 }
 
-// Precisely classified defect candidate: the folder (ast.Folder.foldMul /
-// commutative) replaces a whole * / & and or chain by its absorbing constant
-// (0, 0xffffffff for |, false, true) as soon as that constant occurs in it, so the remaining
-// non-constant operands are never evaluated: a conversion / type exception
-// (or a side effect) of an operand that run-time evaluation reaches is lost.
+// Precisely classified defect candidates. The classes are decided from the
+// case itself (operators of the template, operand values) plus the shape of
+// the two outcomes:
+//
+// classAbsorb: the folder (ast.Folder.foldMul / commutative) replaces a whole
+// * / & | and or chain by its absorbing constant (0, 0xffffffff for |, false,
+// true) as soon as that constant occurs in it, so the remaining operands are
+// never evaluated: a conversion / type exception (or a side effect) of an
+// operand that run-time evaluation reaches is lost.
+//
+// classBit32: the folder uses 0xffffffff as the identity of & and the
+// absorbing element of |, which is only right for 32 bit operands, while the
+// run-time operators work on 64 bit integers.
+//
+// classWrap: constants of + - * / chains are collected, i.e. the operations
+// are re-associated; exact for integers, but the int64 fast paths of
+// OpAdd/OpSub/OpMul wrap (finding F8 of C26), so the grouping shows.
+//
+// classReassoc: the same re-association with decimal operands or a division
+// (divisors become a separately multiplied reciprocal): results differ in the
+// last digit (which can also turn an integral result into a non-integral one),
+// or reach a division by zero with another sign.
+//
+// classDeadOperand: a constant subexpression that raises an error when
+// evaluated is folded although run-time evaluation never reaches it (right
+// operand of and/or after a deciding left operand): a program that runs is
+// rejected at compile time.
 const classAbsorb = "absorbing-constant-skips-operand-evaluation"
+const classBit32 = "bitand-bitor-fold-assumes-32-bit-operands"
+const classReassoc = "nary-arith-fold-reassociation-rounding"
+const classWrap = "nary-arith-fold-reassociation-int64-wrap"
+const classDeadOperand = "error-in-unevaluated-constant-operand-rejects-program"
 
 // classify computes the precise class of a failure ("" = unclassified)
 func classify(s *shape, tuple []int, mask uint, got, ref outcome) string {
-	if got.Kind == "value" && ref.Kind == "exception" && got.val != nil {
+	has := func(ops ...string) bool {
+		for _, op := range ops {
+			if strings.Contains(s.Tmpl, " "+op+" ") {
+				return true
+			}
+		}
+		return false
+	}
+	// operand facts
+	var ints []float64
+	nonInt, big32 := false, false
+	for i := 0; i < s.N; i++ {
+		k := s.consts[tuple[i]]
+		if k.Type != "Number" {
+			continue
+		}
+		if n, ok := k.val.IfInt(); ok {
+			ints = append(ints, math.Abs(float64(n)))
+			if n < 0 || n >= 4294967295 {
+				big32 = true
+			}
+		} else {
+			nonInt = true
+		}
+	}
+	if got.Kind == "compile" {
+		if ref.Kind == "value" && has("and", "or") {
+			return classDeadOperand
+		}
+		return ""
+	}
+	// absorbing constant present (as a constant, not as the parameter) and run time raises an exception
+	if ref.Kind == "exception" {
 		for i := 0; i < s.N; i++ {
 			if mask&(1<<uint(i)) != 0 {
 				continue
 			}
-			k := s.consts[tuple[i]]
-			absorbs := func(ops ...string) bool {
-				for _, op := range ops {
-					if strings.Contains(s.Tmpl, " "+op+" ") {
-						return true
-					}
-				}
-				return false
-			}
-			switch {
-			case k.Text == "0" && absorbs("*", "/", "&"),
-				k.Text == "false" && absorbs("and"),
-				k.Text == "4294967295" && absorbs("|"),
-				k.Text == "true" && absorbs("or"):
+			switch k := s.consts[tuple[i]]; {
+			case k.Text == "0" && has("*", "/", "&"),
+				k.Text == "4294967295" && has("|"),
+				k.Text == "false" && has("and"),
+				k.Text == "true" && has("or"):
 				return classAbsorb
 			}
 		}
 	}
-	if got.Kind == "value" && ref.Kind == "value" && got.Type == "Number" && ref.Type == "Number" && got.val != nil && ref.val != nil {
-		has := func(ops ...string) bool {
-			for _, op := range ops {
-				if strings.Contains(s.Tmpl, " "+op+" ") {
-					return true
-				}
+	// … or a folded intermediate equal to the absorbing element decided the result
+	if ref.Kind == "exception" && got.Kind == "value" && got.val != nil {
+		if got.val.Equal(Zero) && has("*", "/", "&") || got.val.Equal(IntVal(4294967295)) && has("|") ||
+			got.val == False && has("and") || got.val == True && has("or") {
+			return classAbsorb
+		}
+	}
+	bothValues := got.Kind == "value" && ref.Kind == "value"
+	if has("&", "|") && big32 && (bothValues || got.Kind == "value" && ref.Text == "runtime error: negative shift amount") {
+		return classBit32
+	}
+	if has("*", "/", "+", "-") {
+		for i := range ints {
+			if ints[i] > 4.6e18 && bothValues {
+				return classWrap
 			}
-			return false
-		}
-		// bit operators: the folder uses 0xffffffff as the identity of & and the
-		// absorbing element of |, which is only right for 32 bit operands
-		gi, gok := got.val.IfInt()
-		ri, rok := ref.val.IfInt()
-		if has("&", "|") && gok && rok && gi != ri && uint32(gi) == uint32(ri) {
-			return classBit32
-		}
-		// n-ary * / chains: constants are collected and divisors become a
-		// separate reciprocal factor, so the operations are done in another
-		// order/association than written; results differ in the last digit(s)
-		if has("*", "+", "-") {
-			for i := 0; i < s.N; i++ {
-				if s.consts[tuple[i]].Text == "9223372036854775807" {
-					// exact integer reassociation meets the wrapping int64 fast path (finding F8 of C26)
+			for j := range ints {
+				if i != j && (ints[i]*ints[j] > 9.2e18 || ints[i]+ints[j] > 9.2e18) && (bothValues || has("/")) {
 					return classWrap
 				}
 			}
 		}
-		if has("*", "/", "+", "-") && !has("&", "|", "^", "<<", ">>", "%") {
-			g, r := ToDnum(got.val), ToDnum(ref.val)
-			if g.IsInf() && r.IsInf() && has("/") {
-				return classReassoc // division by zero reached with another sign through the changed grouping
-			}
-			if !g.IsInf() && !r.IsInf() && !r.IsZero() {
-				rel := dnum.Div(dnum.Sub(g, r), r).Abs()
-				if dnum.Compare(rel, dnum.FromStr("1e-14")) < 0 {
-					return classReassoc
+		if has("/") && got.Kind == "exception" && got.Text == "can't convert number to integer" {
+			return classReassoc // an integral quotient became non-integral through the reciprocal
+		}
+		if (nonInt || has("/")) && (bothValues || got.Kind == "exception" && got.Text == "can't convert number to integer" && ref.Kind == "value") {
+			if got.Type == "Number" && ref.Type == "Number" && got.val != nil && ref.val != nil && bothValues {
+				// top-level numeric results: require that they are close (or both infinite)
+				g, r := ToDnum(got.val), ToDnum(ref.val)
+				if g.IsInf() || r.IsInf() {
+					if g.IsInf() && r.IsInf() && has("/") {
+						return classReassoc
+					}
+					return ""
+				}
+				if r.IsZero() || dnum.Compare(dnum.Div(dnum.Sub(g, r), r).Abs(), dnum.FromStr("1e-14")) >= 0 {
+					if has("+", "-") && nonInt {
+						return classReassoc // cancellation: (a + p) - a with |a| >> |p|
+					}
+					return ""
 				}
 			}
+			return classReassoc
 		}
 	}
 	return ""
 }
 
-// Precisely classified defect candidates (see classify):
-const classBit32 = "bitand-bitor-fold-assumes-32-bit-operands"
-const classReassoc = "nary-arith-fold-reassociation-rounding"
-const classWrap = "nary-arith-fold-reassociation-int64-wrap"
-
 type stats struct {
 	evals      int
 	static     int
+	order      int
 	valueAgree int
 	refKinds   map[string]int
 }
@@ -480,6 +572,7 @@ func run(c *lib.Ctx) {
 		c.Nontrivial(st.evals)
 		mu.Lock()
 		total.static += st.static
+		total.order += st.order
 		total.valueAgree += st.valueAgree
 		for k, v := range st.refKinds {
 			total.refKinds[k] += v
@@ -495,6 +588,7 @@ func run(c *lib.Ctx) {
 	})
 	c.Set("reference_outcomes", total.refKinds)
 	c.Set("accepted_static_rejections", total.static)
+	c.Set("accepted_both_fail_compile_time_error_first", total.order)
 	c.Set("all_constant_cases_where_both_return_values", total.valueAgree)
 }
 
